@@ -605,6 +605,21 @@ func (env *Env) callExpr(x *ECall) (TV, error) {
 	if err := evalArgs(); err != nil {
 		return TV{}, err
 	}
+	if pd.Abstract {
+		var sorts, ts []string
+		for i, p := range pd.Params {
+			ty, err := env.vc.w.resolveType(env.pkg, p.Typ)
+			if err != nil {
+				return TV{}, err
+			}
+			a := env.coerce(args[i], ty)
+			sorts = append(sorts, env.vc.pureSort(ty))
+			ts = append(ts, a.t)
+		}
+		f := sym("upred$" + pd.Name)
+		enc.decl("upred:"+pd.Name, fmt.Sprintf("(declare-fun %s (%s) Bool)", f, strings.Join(sorts, " ")))
+		return TV{t: app(f, ts...), ty: tBool}, nil
+	}
 	n := *env
 	n.depth++
 	n.resolve = nil
